@@ -140,6 +140,27 @@ binop("div", "impl_op_ex", 5, "op_div_dual2_dual2", "Div", "div", "&Dual2", "&Du
       body_start="proof { a.lemma_view_props(); b.lemma_view_props(); axiom_pow_small(b.real@); }",
       after=[("a * b.clone().pow", 0, "proof { let y = b.real@; let x = a.real@; assert(y * y != 0real) by(nonlinear_arith) requires y != 0real; assert(y * y * y != 0real) by(nonlinear_arith) requires y != 0real; let t2 = 1real / (y * y); let t3 = 1real / (y * y * y); let w1 = 1real / y; alg_mul_recip(x, y); alg_mul_recip(x, y * y); alg_neg_recip(x, y * y); alg_mul_recip(2real * x, y * y * y); assert(2real * (x * t3) == (2real * x) * t3) by(nonlinear_arith); assert forall|n: String| #[trigger] vx_tail.s_grad(n) == (1real / y) * a.s_grad(n) + (-x / (y * y)) * b.s_grad(n) by { alg_scale_neg(x, t2, b.s_grad(n)); } assert forall|n: String, k: String| #[trigger] vx_tail.s_hess(n, k) == hess_rule(a.s_hess(n, k), b.s_hess(n, k), a.s_grad(n), a.s_grad(k), b.s_grad(n), b.s_grad(k), 1real / y, -x / (y * y), 0real, -1real / (y * y), 2real * x / (y * y * y)) by { alg_div2(x, w1, a.s_hess(n, k), b.s_hess(n, k), a.s_grad(n), a.s_grad(k), b.s_grad(n), b.s_grad(k), t2, t3); } }")])
 
+
+# ---- rem.rs  (C19: a % b == a - trunc(a/b) * b in value and derivatives)
+binop("rem", "impl_op_ex", 0, "op_rem_dual_f64", "Rem", "rem", "&Dual", "&R64", "Dual", False,
+      f"{WF1} && {YF} != 0real", f"un1_post(a, r, r_rem({X}, {YF}), 1real)", "C19")
+binop("rem", "impl_op_ex", 2, "op_rem_dual2_f64", "Rem", "rem", "&Dual2", "&R64", "Dual2", False,
+      f"{WF2} && {YF} != 0real", f"un2_post(a, r, r_rem({X}, {YF}), 1real, 0real)", "C19")
+binop("rem", "impl_op_ex", 4, "op_rem_dual_dual", "Rem", "rem", "&Dual", "&Dual", "Dual", False,
+      f"{WF1B} && {Y} != 0real", f"bin1_post(a, b, r, r_rem({X}, {Y}), 1real, -r_trunc({X} / {Y}))", "C19 C03",
+      body_start="proof { a.lemma_view_props(); b.lemma_view_props(); }",
+      after=[("a - d * b", 0, "proof { let q = r_trunc(a.real@ / b.real@); alg_comm(b.real@, q); assert forall|n: String| #[trigger] vx_tail.s_grad(n) == 1real * a.s_grad(n) + (-q) * b.s_grad(n) by { alg_neg_mul(q, b.s_grad(n)); } }")])
+binop("rem", "impl_op_ex", 5, "op_rem_dual2_dual2", "Rem", "rem", "&Dual2", "&Dual2", "Dual2", False,
+      f"{WF2B} && {Y} != 0real", f"bin2_post(a, b, r, r_rem({X}, {Y}), 1real, -r_trunc({X} / {Y}), 0real, 0real, 0real)", "C19 C03",
+      body_start="proof { a.lemma_view_props(); b.lemma_view_props(); }",
+      after=[("a - d * b", 0, "proof { let q = r_trunc(a.real@ / b.real@); alg_comm(b.real@, q); assert forall|n: String| #[trigger] vx_tail.s_grad(n) == 1real * a.s_grad(n) + (-q) * b.s_grad(n) by { alg_neg_mul(q, b.s_grad(n)); } assert forall|n: String, k: String| #[trigger] vx_tail.s_hess(n, k) == hess_rule(a.s_hess(n, k), b.s_hess(n, k), a.s_grad(n), a.s_grad(k), b.s_grad(n), b.s_grad(k), 1real, -q, 0real, 0real, 0real) by { alg_neg_mul(q, b.s_hess(n, k)); } }")])
+binop("rem", "impl_op_ex", 1, "op_rem_f64_dual", "Rem", "rem", "&R64", "&Dual", "Dual", False,
+      f"dual_wf(*b) && {Y} != 0real", f"un1set_post(b, r, r_rem({XF}, {Y}), -r_trunc({XF} / {Y}))", "C19",
+      body_start="proof { b.lemma_view_props(); lemma_dedup_props(Seq::<String>::empty()); }")
+binop("rem", "impl_op_ex", 3, "op_rem_f64_dual2", "Rem", "rem", "&R64", "&Dual2", "Dual2", False,
+      f"dual2_wf(*b) && {Y} != 0real", f"un2set_post(b, r, r_rem({XF}, {Y}), -r_trunc({XF} / {Y}), 0real)", "C19",
+      body_start="proof { b.lemma_view_props(); lemma_dedup_props(Seq::<String>::empty()); }")
+
 # ---- neg.rs
 unop("neg", "impl_op", 0, "op_neg_dual_owned", "Neg", "neg", "Dual", "Dual", "dual_wf(*a)", "un1_post(a, r, -a.real@, -1real)", "C01")
 unop("neg", "impl_op", 1, "op_neg_dual_ref", "Neg", "neg", "&Dual", "Dual", "dual_wf(*a)", "un1_post(a, r, -a.real@, -1real)", "C01")
